@@ -295,13 +295,18 @@ Definition allocated (s s' : fsys) (m : meta) : Prop :=
   /\ meta_at (f_heap s') (length (f_heap s)) = Some m
   /\ forall i, i < length (f_heap s) -> meta_at (f_heap s') i = meta_at (f_heap s) i.
 
-Definition dir_meta (v : view) (perm : N) : meta := new_meta v (dir_mode (v_os v)) (N.land perm (511 + MODE_STICKY)).
-Definition file_meta (v : view) (perm : N) : meta := new_meta v (file_mode (v_os v)) perm.
-Definition link_meta (v : view) : meta :=
-  {| m_mode := N.lor MODE_SYMLINK 511; m_uid := us_uid (v_user v); m_gid := us_gid (v_user v) |}.
+(* [pm]: the meta data of the directory the node is created in (set-group-id inheritance) *)
+Definition dir_meta (v : view) (pm : meta) (perm : N) : meta := new_dir_meta v pm perm.
+Definition file_meta (v : view) (pm : meta) (perm : N) : meta := new_meta v pm (file_mode (v_os v)) perm.
+Definition link_meta (v : view) (pm : meta) : meta :=
+  {| m_mode := N.lor MODE_SYMLINK 511; m_uid := us_uid (v_user v); m_gid := new_gid v pm |}.
+
+(* the directory a call creates in: the parent the walk hands back *)
+Definition parent_meta (s : fsys) (r : sres) : meta :=
+  match sr_parent r with Some p => meta_of (f_heap s) p | None => {| m_mode := 0; m_uid := 0; m_gid := 0 |} end.
 
 Lemma create_dir_allocated (s : fsys) (v : view) (parent : nat) (name : str) (perm : N) :
-  allocated s (fst (create_dir s v parent name perm)) (dir_meta v perm) /\ snd (create_dir s v parent name perm) = length (f_heap s).
+  allocated s (fst (create_dir s v parent name perm)) (dir_meta v (meta_of (f_heap s) parent) perm) /\ snd (create_dir s v parent name perm) = length (f_heap s).
 Proof.
   unfold create_dir, allocated. cbn [fst snd f_heap]. split; [|reflexivity].
   rewrite add_child_length, app_length, Nat.add_comm. cbn [length plus]. split; [reflexivity|]. split.
@@ -310,7 +315,7 @@ Proof.
 Qed.
 
 Lemma create_file_allocated (s : fsys) (v : view) (parent : nat) (name : str) (perm : N) :
-  allocated s (fst (create_file s v parent name perm)) (file_meta v perm) /\ snd (create_file s v parent name perm) = length (f_heap s).
+  allocated s (fst (create_file s v parent name perm)) (file_meta v (meta_of (f_heap s) parent) perm) /\ snd (create_file s v parent name perm) = length (f_heap s).
 Proof.
   unfold create_file, allocated. cbn [fst snd f_heap]. split; [|reflexivity].
   rewrite add_child_length, app_length, Nat.add_comm. cbn [length plus]. split; [reflexivity|]. split.
@@ -319,7 +324,7 @@ Proof.
 Qed.
 
 Lemma create_symlink_allocated (s : fsys) (v : view) (parent : nat) (name link : str) :
-  allocated s (create_symlink s v parent name link) (link_meta v).
+  allocated s (create_symlink s v parent name link) (link_meta v (meta_of (f_heap s) parent)).
 Proof.
   unfold create_symlink, allocated. cbn [f_heap].
   rewrite add_child_length, app_length, Nat.add_comm. cbn [length plus]. split; [reflexivity|]. split.
@@ -329,10 +334,11 @@ Qed.
 
 (* Mkdir *)
 Theorem mkdir_created (s : fsys) (v : view) (name : str) (perm : N) :
-  (snd (mkdir s v name perm) = ROk /\ allocated s (fst (mkdir s v name perm)) (dir_meta v perm))
+  (snd (mkdir s v name perm) = ROk
+   /\ allocated s (fst (mkdir s v name perm)) (dir_meta v (parent_meta s (search_node s v name SlLstat)) perm))
   \/ (snd (mkdir s v name perm) <> ROk /\ fst (mkdir s v name perm) = s).
 Proof.
-  unfold mkdir. destruct name as [|x name]; [right; split; [discriminate|reflexivity]|].
+  unfold mkdir, parent_meta. destruct name as [|x name]; [right; split; [discriminate|reflexivity]|].
   destruct (_ || _); [right; split; [discriminate|reflexivity]|].
   destruct (sr_parent _) as [parent|]; [|right; split; [discriminate|reflexivity]].
   destruct (negb _); [right; split; [discriminate|reflexivity]|].
@@ -342,10 +348,11 @@ Qed.
 
 (* Symlink *)
 Theorem symlink_created (s : fsys) (v : view) (oldname newname : str) :
-  (snd (symlink s v oldname newname) = ROk /\ allocated s (fst (symlink s v oldname newname)) (link_meta v))
+  (snd (symlink s v oldname newname) = ROk
+   /\ allocated s (fst (symlink s v oldname newname)) (link_meta v (parent_meta s (search_node s v newname SlLstat))))
   \/ (snd (symlink s v oldname newname) <> ROk /\ fst (symlink s v oldname newname) = s).
 Proof.
-  unfold symlink. destruct (_ || _); [right; split; [discriminate|reflexivity]|].
+  unfold symlink, parent_meta. cbv zeta. destruct (_ || _); [right; split; [discriminate|reflexivity]|].
   destruct (sr_parent _) as [parent|]; [|right; split; [discriminate|reflexivity]].
   destruct (negb _); [right; split; [discriminate|reflexivity]|].
   left. split; [reflexivity|]. apply create_symlink_allocated.
@@ -360,7 +367,8 @@ Proof. split; reflexivity. Qed.
 
 Theorem open_file_created (s : fsys) (v : view) (vi : nat) (name : str) (flag perm : N) :
   metas_kept s (fst (open_file s v vi name flag perm))
-  \/ (allocated s (fst (open_file s v vi name flag perm)) (file_meta v perm)
+  \/ (allocated s (fst (open_file s v vi name flag perm))
+        (file_meta v (parent_meta s (search_node s v name (if has (to_open_mode flag) OpenCreateExcl then SlLstat else SlEval))) perm)
       /\ exists f, snd (open_file s v vi name flag perm) = inr f /\ hd_node f = Some (length (f_heap s))).
 Proof.
   assert (OE : forall c (om : N),
@@ -386,7 +394,7 @@ Proof.
     - destruct (negb _); [apply metas_kept_refl|]. destruct (has om OpenCreateExcl); [apply metas_kept_refl|].
       cbv zeta. cbn [fst with_heap f_heap]. split; [apply upd_length|]. intros j. apply meta_at_upd.
       intros y Hy. rewrite Hg in Hy. injection Hy as <-. reflexivity. }
-  unfold open_file. destruct name as [|x name]; [left; apply metas_kept_refl|]. cbv zeta.
+  unfold open_file, parent_meta. destruct name as [|x name]; [left; apply metas_kept_refl|]. cbv zeta.
   destruct (_ || _); [left; apply metas_kept_refl|].
   destruct (_ && _); [left; apply metas_kept_refl|].
   destruct (is_not_exist _).
@@ -422,10 +430,11 @@ Proof. intros (A1 & A2) (K1 & K2). split; [congruence|]. intros i. rewrite K2. a
 
 Theorem write_file_created (s : fsys) (v : view) (name : str) (data : list N) (perm : N) :
   metas_kept s (fst (write_file s v name data perm))
-  \/ allocated s (fst (write_file s v name data perm)) (file_meta v perm).
+  \/ allocated s (fst (write_file s v name data perm)) (file_meta v (parent_meta s (search_node s v name SlEval)) perm).
 Proof.
   unfold write_file.
   pose proof (open_file_created s v 0 name (O_WRONLY + O_CREATE + O_TRUNC) perm) as HO.
+  change (has (to_open_mode (O_WRONLY + O_CREATE + O_TRUNC)) OpenCreateExcl) with false in HO. cbv iota in HO.
   destruct (open_file s v 0 name (O_WRONLY + O_CREATE + O_TRUNC) perm) as [s1 [r|f]]; cbn [fst snd] in HO.
   - left. apply metas_kept_refl.
   - pose proof (f_write_metas s1 v f data) as HW.
@@ -454,22 +463,46 @@ Proof.
     + apply B3. lia.
 Qed.
 
+(* a directory created in a new directory gets the same meta data again: the group and the set-group-id bit are
+   inherited along the chain MkdirAll creates *)
+Lemma land_new_dir_setgid (os : ostype) (perm um x : N) :
+  N.land (N.lor (N.lor (dir_mode os) (N.ldiff (N.land (N.land perm (511 + MODE_STICKY)) FILE_MODE_MASK) um))
+                (N.land x MODE_SETGID)) MODE_SETGID = N.land x MODE_SETGID.
+Proof.
+  apply N.bits_inj. intros k. rewrite !N.land_spec, !N.lor_spec, N.ldiff_spec, !N.land_spec.
+  change MODE_SETGID with (2 ^ 22)%N. rewrite N.pow2_bits_eqb. destruct (N.eqb_spec 22 k) as [<-|_].
+  - replace (N.testbit (dir_mode os) 22) with false by (destruct os; reflexivity).
+    change (N.testbit (511 + MODE_STICKY) 22) with false. rewrite !andb_false_r, !andb_true_r. reflexivity.
+  - rewrite !andb_false_r. reflexivity.
+Qed.
+
+Lemma dir_meta_idem (v : view) (pm : meta) (perm : N) : dir_meta v (dir_meta v pm perm) perm = dir_meta v pm perm.
+Proof.
+  unfold dir_meta, new_dir_meta, new_meta, new_gid, has. cbn [m_mode m_uid m_gid].
+  rewrite !land_new_dir_setgid. destruct (negb (N.eqb (N.land (m_mode pm) MODE_SETGID) 0)); reflexivity.
+Qed.
+
+Lemma meta_at_of (h : heap) (i : nat) (m : meta) : meta_at h i = Some m -> meta_of h i = m.
+Proof. unfold meta_at, meta_of. destruct (get h i); cbn [option_map]; congruence. Qed.
+
 Lemma mkdir_all_loop_created (v : view) (perm : N) : forall fuel s dn pi,
-  allocated_many s (mkdir_all_loop fuel s v dn pi perm) (dir_meta v perm).
+  allocated_many s (mkdir_all_loop fuel s v dn pi perm) (dir_meta v (meta_of (f_heap s) dn) perm).
 Proof.
   induction fuel as [|fuel IH]; intros s dn pi; cbn [mkdir_all_loop]; [apply allocated_many_refl|].
   destruct (alookup _ _ _); [apply allocated_many_refl|].
-  pose proof (create_dir_allocated s v dn (pi_part pi) perm) as (A & _).
-  destruct (create_dir s v dn (pi_part pi) perm) as [s1 c]. cbn [fst] in A.
+  pose proof (create_dir_allocated s v dn (pi_part pi) perm) as (A & Ac).
+  destruct (create_dir s v dn (pi_part pi) perm) as [s1 c]. cbn [fst snd] in A, Ac.
   destruct (pi_next (v_os v) pi) as [ok pi1]. destruct ok.
-  - exact (allocated_one_many _ _ _ _ A (IH s1 c pi1)).
+  - subst c. pose proof (IH s1 (length (f_heap s)) pi1) as B. destruct A as (A1 & A2 & A3).
+    rewrite (meta_at_of _ _ _ A2), dir_meta_idem in B.
+    exact (allocated_one_many _ _ _ _ (conj A1 (conj A2 A3)) B).
   - exact (allocated_one_many _ _ _ _ A (allocated_many_refl s1 _)).
 Qed.
 
 Theorem mkdir_all_created (s : fsys) (v : view) (path : str) (perm : N) :
-  allocated_many s (fst (mkdir_all s v path perm)) (dir_meta v perm).
+  allocated_many s (fst (mkdir_all s v path perm)) (dir_meta v (parent_meta s (search_node s v path SlEval)) perm).
 Proof.
-  unfold mkdir_all. cbv zeta. destruct (sr_child _) as [c|].
+  unfold mkdir_all, parent_meta. cbv zeta. destruct (sr_child _) as [c|].
   - destruct (get (f_heap s) c) as [[ch m|d k i m|t m]|].
     + destruct (is_file_exists _); apply allocated_many_refl.
     + apply allocated_many_refl.
@@ -481,13 +514,18 @@ Proof.
     apply mkdir_all_loop_created.
 Qed.
 
-(* the meta in question, spelled out: the caller's uid and gid, type bits | (perm & mask) &^ umask *)
-Lemma dir_meta_spec (v : view) (perm : N) :
-  m_uid (dir_meta v perm) = us_uid (v_user v) /\ m_gid (dir_meta v perm) = us_gid (v_user v)
-  /\ m_mode (dir_meta v perm) = N.lor (dir_mode (v_os v)) (N.ldiff (N.land perm (511 + MODE_STICKY)) (v_umask v)).
-Proof. unfold dir_meta, new_meta. cbn [m_uid m_gid m_mode]. rewrite land_dir_bits. auto. Qed.
+(* the meta in question, spelled out: the caller's uid; the caller's gid, or the gid of the directory [pm] the object
+   is created in when that directory is set-group-id; type bits | (perm & mask) &^ umask, and for a new directory
+   the set-group-id bit of [pm] *)
+Lemma dir_meta_spec (v : view) (pm : meta) (perm : N) :
+  m_uid (dir_meta v pm perm) = us_uid (v_user v)
+  /\ m_gid (dir_meta v pm perm) = (if has (m_mode pm) MODE_SETGID then m_gid pm else us_gid (v_user v))
+  /\ m_mode (dir_meta v pm perm)
+     = N.lor (N.lor (dir_mode (v_os v)) (N.ldiff (N.land perm (511 + MODE_STICKY)) (v_umask v))) (N.land (m_mode pm) MODE_SETGID).
+Proof. unfold dir_meta, new_dir_meta, new_meta, new_gid. cbn [m_uid m_gid m_mode]. rewrite land_dir_bits. auto. Qed.
 
-Lemma file_meta_spec (v : view) (perm : N) :
-  m_uid (file_meta v perm) = us_uid (v_user v) /\ m_gid (file_meta v perm) = us_gid (v_user v)
-  /\ m_mode (file_meta v perm) = N.lor (file_mode (v_os v)) (N.ldiff (N.land perm FILE_MODE_MASK) (v_umask v)).
-Proof. unfold file_meta, new_meta. cbn [m_uid m_gid m_mode]. auto. Qed.
+Lemma file_meta_spec (v : view) (pm : meta) (perm : N) :
+  m_uid (file_meta v pm perm) = us_uid (v_user v)
+  /\ m_gid (file_meta v pm perm) = (if has (m_mode pm) MODE_SETGID then m_gid pm else us_gid (v_user v))
+  /\ m_mode (file_meta v pm perm) = N.lor (file_mode (v_os v)) (N.ldiff (N.land perm FILE_MODE_MASK) (v_umask v)).
+Proof. unfold file_meta, new_meta, new_gid. cbn [m_uid m_gid m_mode]. auto. Qed.
